@@ -210,8 +210,33 @@ Definition zeros (n : nat) : bytes := repeat x00 n.
 Lemma zeros_length n : length (zeros n) = n.
 Proof. apply repeat_length. Qed.
 
-(* the case-file literal: [H len v] is the len-byte big-endian string of v *)
-Definition H (len v : N) : bytes := be (N.to_nat len) v.
+(* the case-file literal: [H len v] is the len-byte big-endian string of v.
+   Linear-time implementation over the binary digits (equal to [be], but [be]
+   divides a multi-thousand-bit number once per byte). *)
+Fixpoint pos_bits (p : positive) : list bool :=
+  match p with
+  | xH => [true]
+  | xO q => false :: pos_bits q
+  | xI q => true :: pos_bits q
+  end.
+Definition N_bits (n : N) : list bool :=
+  match n with N0 => [] | Npos p => pos_bits p end.
+Definition bit_val (b : bool) (w : N) : N := if b then w else 0.
+(* little-endian bits -> little-endian bytes; fuel = number of bytes wanted *)
+Fixpoint bits_to_bytes_le (fuel : nat) (bits : list bool) : bytes :=
+  match fuel with
+  | O => []
+  | S f =>
+    match bits with
+    | b0 :: b1 :: b2 :: b3 :: b4 :: b5 :: b6 :: b7 :: tl =>
+        n2b (bit_val b0 1 + bit_val b1 2 + bit_val b2 4 + bit_val b3 8 +
+             bit_val b4 16 + bit_val b5 32 + bit_val b6 64 + bit_val b7 128)
+        :: bits_to_bytes_le f tl
+    | _ => x00 :: bits_to_bytes_le f []     (* fewer than 8 bits left: only padding *)
+    end
+  end.
+Definition H (len v : N) : bytes :=
+  rev_append (bits_to_bytes_le (N.to_nat len) (N_bits v ++ repeat false 7)) [].
 
 (* last n elements (Python b[-n:] for n > 0) *)
 Definition lastN {A} (n : N) (l : list A) : list A := dropN (blen l - n) l.
@@ -222,3 +247,23 @@ Proof.
   replace (blen a + blen b - blen b) with (blen a) by lia.
   apply dropN_app_exact.
 Qed.
+
+Example H_example : H 5 0x4246330001 = be 5 0x4246330001 /\ H 3 0xFF = be 3 0xFF /\ H 1 0x1FF = be 1 0x1FF /\ H 2 0 = be 2 0.
+Proof. vm_compute. repeat split. Qed.
+
+Lemma takeN_app_exact' {A} n (a b : list A) : blen a = n -> takeN n (a ++ b) = a.
+Proof. intros <-. apply takeN_app_exact. Qed.
+Lemma dropN_app_exact' {A} n (a b : list A) : blen a = n -> dropN n (a ++ b) = b.
+Proof. intros <-. apply dropN_app_exact. Qed.
+Lemma blen_zeros n : blen (zeros n) = N.of_nat n.
+Proof. unfold blen. rewrite zeros_length. reflexivity. Qed.
+Lemma be_1 v : be 1 v = [n2b v].
+Proof. reflexivity. Qed.
+Lemma takeN_all {A} n (l : list A) : blen l <= n -> takeN n l = l.
+Proof.
+  intro H. rewrite takeN_firstn. apply firstn_all2. unfold blen in H. lia.
+Qed.
+Lemma dropN_0 {A} (l : list A) : dropN 0 l = l.
+Proof. rewrite dropN_skipn. reflexivity. Qed.
+Lemma b2n_n2b_small n : n < 256 -> b2n (n2b n) = n.
+Proof. intro H. rewrite b2n_n2b. apply N.mod_small, H. Qed.
